@@ -209,7 +209,7 @@ fn class_cells_ring(n: u64) -> Vec<u64> {
 pub fn run(ctx: &Ctx) -> i32 {
   let quick = ctx.quick();
   let listed_kf2 = ctx.findings.listed("C11", KF2);
-  let n_exh: u32 = if quick { 40 } else { 160 };
+  let n_exh: u32 = if quick { 64 } else { 256 };
   let mut large: Vec<u32> = vec![97, 1000, 4099, 65537, 1_000_003, (1 << 26) + 1, 3 << 27, (1 << 29) - 1, 1 << 29];
   for k in [6u32, 10, 15, 20, 25, 26, 27, 28] {
     large.push(1 << k);
